@@ -38,6 +38,12 @@ impl FixtureDatabase {
         self.file_cache
             .insert(file_path.clone(), std::sync::Arc::new(content.to_string()));
 
+        // The version-keyed caches (available fixtures, cycles, imported fixtures) depend on the
+        // definitions AND on the cached texts (a conftest's imports). Every analysis may change
+        // either - also one that only removes definitions or only changes imports - so the
+        // version must move here, not only when a definition is recorded.
+        self.invalidate_cycle_cache();
+
         // Parse the Python code
         let parsed = match parse(content, Mode::Module, "") {
             Ok(ast) => ast,
